@@ -1260,7 +1260,7 @@ pub fn run(ctx: &Ctx) -> i32 {
         );
     ev.assume("overflow checks and debug assertions are enabled in the checked build (the repo's release profile disables them; wrap-around there is the same defect without the trap)");
     ev.assume("strings/values larger than 65537 bytes and trees deeper than 4 / wider than 4 nodes are outside the bound");
-    if total.distinct_outcomes.len() < 2 || b_ok == 0 {
+    if total.report.violations.is_empty() && (total.distinct_outcomes.len() < 2 || b_ok == 0) {
         eprintln!("MACHINERY: vacuous C16 run");
         return 2;
     }
